@@ -35,7 +35,10 @@ MC_UniStrs    == {"caf<U+00E9>", "<U+6771><U+4EAC> x", "a<U+1F600>b", "<U+00E9><
 MC_UniStrs_S  == {"<U+00E9><U+6771><U+1F600>"}
 MC_UniIdents  == {"t<U+00E9>", "<U+6771>1", "q <U+1F600>", "databases", "Databases", "orders", "counts", "desc1", "keys",
                    \* eight bytes that grow under upper-casing (U+0250 -> U+2C6F), letters whose low byte is a blank or a line break
-                   "abcdef<U+0250>", "coun<U+0265><U+0265>", "<U+010D>islo", "<U+4E0A><U+6D77>"}     \* the last one is written in double quotes
+                   "abcdef<U+0250>", "coun<U+0265><U+0265>", "<U+010D>islo",
+                   \* letters that upper-casing folds into ASCII (long s -> S, dotless i -> I): names, not the keywords SET / LIMIT / SUM
+                   "<U+017F>et", "l<U+0131>m<U+0131>t", "<U+017F>elect", "<U+0131>nt",
+                   "<U+4E0A><U+6D77>"}     \* the last one is written in double quotes
 MC_UniIdents_S == {"t<U+00E9>"}
 MC_VarcharLens == {1, 255}
 MC_BigInts  == {"2147483647", "2147483648", "3000000000", "4294967296", "9223372036854775807"}
